@@ -257,10 +257,10 @@ def run_c05(tier, budget, rnd, res, script, post):
     from incomplete_cooperative.shapley import compute_shapley_value_for_player
     StubGame, StubIncomplete = make_stubs()
     nmax = 6 if tier == "quick" else 8
-    per_n = 40 if tier == "quick" else 250
+    per_n = 150 if tier == "quick" else 1200
     for n in range(1, nmax + 1):
         N = 2 ** n
-        for t in range(per_n if n <= 6 else per_n // 5):
+        for t in range(per_n if n <= 5 else (per_n // 3 if n == 6 else per_n // 12)):
             if not budget.ok():
                 res.notes.append(f"C05: budget exhausted at n={n} case {t}")
                 return
@@ -405,11 +405,11 @@ def run_c06(tier, budget, rnd, res, script, post):
     StubGame, _ = make_stubs()
     nmax = 6 if tier == "quick" else 8
     ord_max = 6 if tier == "quick" else 7
-    per_n = 40 if tier == "quick" else 250
+    per_n = 150 if tier == "quick" else 1200
     kinds = ["random", "random", "random", "null", "additive", "unit", "unanimity"]
     for n in range(1, nmax + 1):
         N = 2 ** n
-        count = per_n if n <= 5 else (per_n // 4 if n == 6 else per_n // 10)
+        count = per_n if n <= 5 else (per_n // 4 if n == 6 else per_n // 20)
         for t in range(count):
             if not budget.ok():
                 res.notes.append(f"C06: budget exhausted at n={n} case {t}")
@@ -524,10 +524,10 @@ def run_c07(tier, budget, rnd, res, script, post):
     from incomplete_cooperative.norms import l1_norm, l2_norm, linf_norm
     _, StubIncomplete = make_stubs()
     nmax = 6 if tier == "quick" else 8
-    chains = 25 if tier == "quick" else 150
+    chains = 80 if tier == "quick" else 600
     for n in range(1, nmax + 1):
         N = 2 ** n
-        for t in range(chains if n <= 6 else chains // 5):
+        for t in range(chains if n <= 5 else (chains // 3 if n == 6 else chains // 12)):
             if not budget.ok():
                 res.notes.append(f"C07: budget exhausted at n={n} chain {t}")
                 return
@@ -624,6 +624,101 @@ def run(tier: str, budget: Budget, rnd, arg) -> StreamResult:
             if abs(float(r[1]) - float(Fraction(model))) > tol:
                 res.disagree(what + ": beyond tolerance", {"impl": float(r[1]), "model": float(Fraction(model)), "tolerance": tol, "ctx": ctx})
     return res
+
+
+def replay(prop, payload):
+    """re-run the property's oracle on the real code for the input stored in a replay file"""
+    from incomplete_cooperative.exploitability import MaxGainGame, compute_exploitability
+    from incomplete_cooperative.norms import l1_norm, l2_norm, linf_norm
+    from incomplete_cooperative.shapley import compute_shapley_value, compute_shapley_value_for_player
+    StubGame, _ = make_stubs()
+    x = payload["input"]
+    n = int(x["n"])
+    N = 2 ** n
+    F = Fraction
+    bad = []
+    if "values" in x:                                            # C06
+        v = [F(a) for a in x["values"]]
+        r = call(lambda: list(compute_shapley_value(real_complete(n, v))))
+        if r[0] != "ok":
+            return True, f"compute_shapley_value raised {r[1]} on a complete game"
+        phi = [frac(a) for a in r[1]]
+        want = shapley_orderings(n, v) if n <= 8 else shapley_exact(n, v)
+        if phi != want:
+            bad.append(f"Shapley value {[rs(a) for a in phi]} ≠ average over orderings {[rs(a) for a in want]}")
+        if sum(phi) != v[N - 1] - v[0]:
+            bad.append("values do not sum to v(N)")
+        one = [frac(compute_shapley_value_for_player(i, real_complete(n, v))) for i in range(n)]
+        if one != phi or [frac(a) for a in compute_shapley_value(StubGame(n, v))] != phi:
+            bad.append("entry points / game classes differ")
+        for p in range(n):
+            if all(v[c | (1 << p)] == v[c] for c in range(N)) and phi[p] != 0:
+                bad.append(f"null player {p} gets {rs(phi[p])}")
+        if "perm" in x:
+            perm = [int(a) for a in x["perm"]]
+            vp = [None] * N
+            for c in range(N):
+                vp[perm_mask(c, perm)] = v[c]
+            phip = [frac(a) for a in compute_shapley_value(real_complete(n, vp))]
+            if any(phip[perm[j]] != phi[j] for j in range(n)):
+                bad.append("relabelling does not permute the values")
+        if "w" in x and "a" in x:
+            w = [F(a) for a in x["w"]]
+            a = F(x["a"])
+            phiw = [frac(b) for b in compute_shapley_value(real_complete(n, w))]
+            phic = [frac(b) for b in compute_shapley_value(real_complete(n, [a * v[c] + w[c] for c in range(N)]))]
+            if phic != [a * phi[j] + phiw[j] for j in range(n)]:
+                bad.append("not linear")
+        if "unknown" in x:
+            from incomplete_cooperative.coalitions import Coalition
+            g = real_complete(n, v)
+            g.unset_value(Coalition(int(x["unknown"])))
+            if call(lambda: list(compute_shapley_value(g)))[0] == "ok":
+                bad.append("numbers returned for an incomplete game")
+    elif "chain" in x:                                           # C07
+        prev = None
+        for idx, row in enumerate(x["chain"]):
+            known = [ch == "1" for ch in row["known"]]
+            lo = [F(a) for a in row["lo"]]
+            hi = [F(a) for a in row["hi"]]
+            g = real_table(n, known, lo, hi)
+            w = [hi[c] - lo[c] for c in range(N)]
+            cur = {"l1": frac(l1_norm(g)), "linf": frac(linf_norm(g)), "l2": float(l2_norm(g)),
+                   "expl": frac(compute_exploitability(g))}
+            root = math.sqrt(float(sum(a * a for a in w)))
+            if cur["l1"] != sum(abs(a) for a in w) or cur["linf"] != max(abs(a) for a in w) or abs(cur["l2"] - root) > math.ulp(root):
+                bad.append(f"table {idx}: a norm is not the named norm of the widths")
+            for k, a in cur.items():
+                if a < 0:
+                    bad.append(f"table {idx}: gap {k} negative")
+                if prev is not None and a > prev[k]:
+                    bad.append(f"table {idx}: gap {k} increased from {prev[k]} to {a}")
+                if all(b == 0 for b in w) and a != 0:
+                    bad.append(f"table {idx}: gap {k} = {a} on a degenerate table")
+            prev = cur
+    else:                                                        # C05
+        known = [ch == "1" for ch in x["known"]]
+        lo = [F(a) for a in x["lo"]]
+        hi = [F(a) for a in x["hi"]]
+        g = real_table(n, known, lo, hi)
+        r = call(compute_exploitability, g)
+        if (r[0] == "ok") != known[N - 1]:
+            bad.append(f"defined ⇎ grand coalition known (outcome {ans_num(r)})")
+        elif r[0] == "ok":
+            e = frac(r[1])
+            if e != expl_closed(n, lo, hi):
+                bad.append(f"exploitability {rs(e)} ≠ Σ (hi−lo)/C(n,|S|) − hi(∅) = {rs(expl_closed(n, lo, hi))}")
+            if all(lo[c] <= hi[c] for c in range(N)) and hi[0] == 0:
+                if e < 0:
+                    bad.append("negative")
+                if (e == 0) != all(lo[c] == hi[c] for c in range(N)):
+                    bad.append("zero ⇎ degenerate")
+            if "completion" in x:
+                p = int(x["player"])
+                w = [F(a) for a in x["completion"]]
+                if frac(compute_shapley_value_for_player(p, StubGame(n, w))) > frac(compute_shapley_value_for_player(p, MaxGainGame(g, p))):
+                    bad.append("a completion beats the per-player maximum")
+    return (bool(bad), "; ".join(bad) if bad else "the stored input satisfies the property on this tree")
 
 
 def search(tier, budget, rnd, arg, disagreements):
